@@ -267,6 +267,25 @@ def build(tier):
             return NetD(self.name + ".rebuilt", arch=kwargs["arch"])
     NetD.pytype = lambda self, ex, st: NetCls(self.name)
     P.contract(MUT + "mutation", setup=mut_setup, params={}, requires=[], frame_fields=False, ensures=["mut_post(result)"], replay="c02:coherent")
+    # multi-agent layout: the shared/target networks are a LIST rebuilt member by member from the list of (mutated) eval networks
+    rebuilt_src = []
+
+    def list_setup(ex, st, fr):
+        rebuilt_src.clear()
+        rebuilt_src.extend([NetD("eval0"), NetD("eval1"), NetD("eval2")])
+        slf = Obj(MUT[:-1] if MUT.endswith(".") else MUT, label="self")
+        st.locals.update(dict(self=slf, offspring=list(rebuilt_src), remove_compile_prefix=False))
+
+    def rebuilt_list(res):
+        src = rebuilt_src
+        if not (isinstance(res, list) and len(res) == len(src) and all(isinstance(r, NetD) for r in res)):
+            return z3.BoolVal(False)
+        if len({id(r) for r in res} | {id(x) for x in src}) != 2 * len(src):
+            return z3.BoolVal(False)                                        # fresh, pairwise distinct modules
+        return z3.And(*[z3.And(r.arch == x.arch, r.w == x.w, z3.BoolVal(r.loaded_from is x)) for r, x in zip(res, src)])
+    P.specns["rebuilt_list"] = rebuilt_list
+    P.contract(MUT + "reinit_from_mutated", variant="list", setup=list_setup, params={}, requires=[], frame_fields=False,
+               ensures=["rebuilt_list(result)"], replay="c02:coherent")
     P.native.append(dict(name="coherent", adapter="c02:coherent", thorough_only=True, payload={"mode": "search"},
                          bound="DQN, DDPG, TD3 (share_encoders=False), 3 seeds x 3 generations of architecture / parameter / activation / rl_hp mutations: "
                                "optimizers hold the current parameters and lr, targets shadow their networks, critics follow the policy, learn moves parameters"))
@@ -274,6 +293,6 @@ def build(tier):
                   "torch.optim constructor contract (C06)"]
     P.assumptions += ["accelerator is None", "two critics / two sub-agents in the multi-agent variant (structure concrete)"]
     P.uncovered += ["parameter and activation mutations, Mutations.mutation() dispatch and population order (native adapter only)",
-                    "shared/target networks rebuilt from the eval network (reinit_shared_networks) - native only",
+                    "torch.compile prefixes in reinit_from_mutated (remove_compile_prefix=True)",
                     "a learn step really moves the parameters (autograd)"]
     return P
